@@ -65,7 +65,7 @@ func (c18) Info() core.Info {
 			"after an injected reader error the sink log may be any prefix covering at least the packets fully delivered before the failing Read; it must never contain a misaligned, duplicated or reordered packet",
 			"a sink that returns a short count without error is outside the statement: only integrity and order of what is delivered are checked after it",
 		},
-		RequiredProbes: []string{"frag_unaligned", "one_byte", "data_with_eof", "partial_tail", "sink_err_first", "sink_err_mid", "reader_err_mid_packet", "via_io_copy", "write_not_multiple", "write_multi_packet", "closer", "adapter_reused", "adapter_reused_after_partial_tail", "reader_is_writerto", "bufio_reader_smaller_than_a_packet", "stream_with_repeated_packets", "sink_err_full_count", "reader_fails_with_unexpected_eof", "sink_fails_with_eof_value", "seekable_reader_already_partly_read", "empty_read_before_every_byte", "reader_fails_with_a_well_known_sentinel", "more_than_4gib_in_one_call", "sink_type_has_own_write_method", "reentrant_write_between_two_short_reads_of_one_packet"},
+		RequiredProbes: []string{"frag_unaligned", "one_byte", "data_with_eof", "partial_tail", "sink_err_first", "sink_err_mid", "reader_err_mid_packet", "via_io_copy", "write_not_multiple", "write_multi_packet", "closer", "adapter_reused", "adapter_reused_after_partial_tail", "reader_is_writerto", "bufio_reader_smaller_than_a_packet", "stream_with_repeated_packets", "sink_err_full_count", "reader_fails_with_unexpected_eof", "sink_fails_with_eof_value", "seekable_reader_already_partly_read", "empty_read_before_every_byte", "reader_fails_with_a_well_known_sentinel", "more_than_4gib_in_one_call", "sink_type_has_own_write_method", "reentrant_write_between_two_short_reads_of_one_packet", "reentrant_write_inside_a_multi_packet_write"},
 	}
 }
 
@@ -124,6 +124,16 @@ func (c18) Gen(r *core.Rand, tier string) interface{} {
 	}
 	if s.Adapter == "IOWriteCloser" && r.Chance(1, 4) {
 		s.Sink.CloseErr = true
+	}
+	if r.Chance(1, 25) {
+		// the packet writer itself writes a packet through the adapter that is calling it
+		s.Mode, s.Adapter = "reenter", "Func"
+		s.Sink = parties.SinkPlan{FailAt: -1}
+		s.Packets = r.Pick(1, 2, 3, 4, 8)
+		for k := r.Range(1, 2); k > 0; k-- {
+			s.Inject = append(s.Inject, r.Range(1, s.Packets))
+		}
+		return s
 	}
 	if r.Chance(1, 10) {
 		// two adapters stacked, the reader writes through the inner one while the outer one reads
@@ -203,7 +213,7 @@ func (c18) Gen(r *core.Rand, tier string) interface{} {
 		s.Reads = parties.GenReadOps(r, r.Range(0, n), r.PickS("full", "frag", "mixed"), true)
 		s.Sink.FailAt = -1
 		if r.Chance(1, 3) {
-			as := r.PickS("ueof", "weof", "closedpipe", "osclosed", "noprogress", "canceled", "deadline")
+			as := r.PickS("ueof", "weof", "closedpipe", "osclosed", "noprogress", "canceled", "deadline", "temporary")
 			for i := range s.Reads {
 				if s.Reads[i].Kind == "err" || s.Reads[i].Kind == "hard_err" {
 					s.Reads[i].As = as // the reader's OWN error is io.ErrUnexpectedEOF, or wraps io.EOF
@@ -327,6 +337,78 @@ func (r *c18Reentrant) Read(p []byte) (int, error) {
 	return r.sr.Read(p)
 }
 
+// c18Reenter: one Write of several packets; while it handles the Inject[i]-th of them the packet
+// writer sends a packet of its own through the very adapter that is calling it (it has logged
+// the packet it was given first).
+func c18Reenter(s *C18Script, c *core.Ctx) {
+	src, data := c18Data(s)
+	data = data[:188*len(src)]
+	at := map[int]bool{}
+	for _, k := range s.Inject {
+		at[k] = true
+	}
+	var w io.Writer
+	var log, extra []packet.Packet
+	outer, nested := 0, false
+	badRes := ""
+	w = packet.IOWriter(packet.PacketWriterFunc(func(p *packet.Packet) (int, error) {
+		log = append(log, *p)
+		if nested {
+			return 188, nil
+		}
+		outer++
+		if at[outer] {
+			nested = true
+			x := c18Packet(5000+len(extra), s.Salt+5)
+			extra = append(extra, x)
+			n, err := w.Write(x[:])
+			if (n != 188 || err != nil) && badRes == "" {
+				badRes = fmt.Sprint(n, " ", err)
+			}
+			nested = false
+		}
+		return 188, nil
+	}))
+	c.Log("c18 reenter packets=%d inject=%v", s.Packets, s.Inject)
+	c.Unit("packets_offered", int64(s.Packets))
+	var n int
+	var err error
+	if !c.Call("packetWriter.Write(packet writer re-enters the adapter)", func() { n, err = w.Write(data) }) {
+		return
+	}
+	c.Log("reenter n=%d err=%v delivered=%d extra=%d", n, err, len(log), len(extra))
+	if len(extra) > 0 {
+		c.Probe("packet_writer_wrote_through_its_own_adapter")
+		c.Fault("reentrant_write_during_write")
+		if s.Packets >= 2 {
+			c.Probe("reentrant_write_inside_a_multi_packet_write")
+		}
+	}
+	if badRes != "" {
+		c.Fail("full_length", "reenter:inner_write_result_wrong", badRes, "188 <nil>")
+		return
+	}
+	a, b := 0, 0
+	for k := range log {
+		switch {
+		case a < len(src) && log[k] == src[a]:
+			a++
+		case b < len(extra) && log[k] == extra[b]:
+			b++
+		default:
+			c.Fail("unmodified", "reenter:delivered_bytes_not_the_next_packet_of_either_source", k, "the next packet of the slice or of the packet writer")
+			return
+		}
+	}
+	if a != len(src) || b != len(extra) {
+		c.Fail("once_per_packet", "reenter:packets_not_all_delivered", []int{a, b}, []int{len(src), len(extra)})
+		return
+	}
+	if n != len(data) || err != nil {
+		c.Fail("full_length", "reenter:write_result_wrong", []interface{}{n, err}, []interface{}{len(data), nil})
+	}
+}
+
 func c18Nested(s *C18Script, c *core.Ctx) {
 	src, data := c18Data(s)
 	sink := parties.NewSimSink(parties.SinkPlan{FailAt: -1}, c)
@@ -408,6 +490,10 @@ func (c18) Exec(script interface{}, c *core.Ctx) {
 	}
 	if s.Mode == "nested" {
 		c18Nested(s, c)
+		return
+	}
+	if s.Mode == "reenter" {
+		c18Reenter(s, c)
 		return
 	}
 	src, data := c18Data(s)
